@@ -75,7 +75,8 @@ def r1_parse_sites(cx):
                     n_crc += ok
                 cx.ob("R1", "R1/cut_check@%s" % f["name"], ok, f, msg, ln=t.get("ln"))
             if call_is(t, r"CheckReader::new_from_parts$"):
-                cx.ob("R1", "R1/CheckReader-built-in@%s" % f["name"], f["name"].endswith("Reader::cut_check"), f,
+                own = F.effective_owner(f)    # a new helper used by cut_check alone builds it on cut_check's behalf
+                cx.ob("R1", "R1/CheckReader-built-in@%s" % own["name"], own["name"].endswith("Reader::cut_check"), f,
                       "CheckReader (the only type that can parse_in) is constructed only by Reader::cut_check", ln=t.get("ln"))
             if call_is(t, r"Reader::parse_block_unchecked_at::<"):
                 b = b or F.body(f)
@@ -121,11 +122,12 @@ def r1_parse_sites(cx):
     b = F.body(f)
     cc = b.calls(r"Reader::cut_check$")
     raw = b.calls(r"bases::reader::Reader::cut$")
-    ok = len(cc) == 1 and len(raw) == 1
+    ok = len(cc) >= 1 and len(raw) >= 1
     if ok:
-        # the raw cut is control dependent on the is_entry_checked flag
-        cds = b.control_dep_switches(raw[0][0])
-        ok = any(("field", "is_entry_checked") in b.origins(b.term(s)["op"]) for s in cds)
+        # path-sensitive: with the flag clear only the CRC-checked cut is reachable, the raw cut needs the flag
+        r0, _ = b.explore(assume_fields={"is_entry_checked": False}, avoid=b.error_blocks())
+        r1, _ = b.explore(assume_fields={"is_entry_checked": True}, avoid=b.error_blocks())
+        ok = not any(i in r0 for i, _ in raw) and any(i in r0 for i, _ in cc) and any(i in r1 for i, _ in raw)
     cx.ob("R1", "R1/EntryStore.finalize/whole-data-crc", ok, f, "entry data is cut with Crc32 unless the (CRC-covered) is_entry_checked flag is set")
     if len(raw) == 1:
         cx.ob("R1", "R1/EntryStore.finalize/per-entry-arm", True, f, "informational: the is_entry_checked arm cuts unchecked and no per-entry verification exists; the creator never sets the flag", ln=raw[0][1].get("ln"), info=True)
@@ -133,10 +135,29 @@ def r1_parse_sites(cx):
 
 def _value_used(b, l):
     """is the Ok payload of local l (a Result) read anywhere? through `?` / match"""
-    tl = b.forward_locals({l}, through_calls=False)
+    def whole_copies(seed):
+        # locals holding the same value: plain moves / copies / borrows of the whole local (not values built from a part of it)
+        tl = set(seed)
+        changed = True
+        while changed:
+            changed = False
+            for blk in b.blocks:
+                for s in blk["s"]:
+                    if s["k"] == "assign" and not s["lhs"].get("p") and s["lhs"]["l"] not in tl:
+                        rv = s["rv"]
+                        src = None
+                        if rv["k"] == "use":
+                            src = op_place(rv["op"])
+                        elif rv["k"] == "ref":
+                            src = rv["pl"]
+                        if src is not None and src["l"] in tl and not [e for e in src.get("p", []) if e != "*"]:
+                            tl.add(s["lhs"]["l"])
+                            changed = True
+        return tl
+    tl = whole_copies({l})
     for i, t in b.calls(r"Try>::branch$"):
         if op_base_local(t["args"][0]) in tl:
-            tl |= b.forward_locals({t["dest"]["l"]}, through_calls=False)
+            tl |= whole_copies({t["dest"]["l"]})
     for i, blk in enumerate(b.blocks):
         if blk.get("cleanup"):
             continue
@@ -253,13 +274,14 @@ def r2_source_matrix(cx):
             env = {"move_to_memory": True}
             if it["name"] == "cut":
                 env[4] = True
-            succ = restricted_succ(b, {bc: crc}, env)
             err = b.error_blocks() | b.err_return_blocks()
             verif = {i for i, t in b.calls(r"block::assert_slice_crc$")}
             deleg = {i for i, t in b.calls(r"Source>::get_slice$", r"Source>::cut$") if "param:%d" % bc in enum_arg(b, t["args"][2])}
-            r_all = _reach(succ, 0, avoid=err)
+            # path-sensitive constant propagation under: block_check = Crc32, in_memory = true, move_to_memory() = true
+            kw = dict(assume_locals=({4: True} if it["name"] == "cut" else {}), assume_discr={r"block::BlockCheck$": crc}, assume_calls={r"file::move_to_memory$": True})
+            r_all, _ = b.explore(avoid=err, **kw)
             rets = [x for x in r_all if b.term(x)["k"] == "return"]
-            r_wo = _reach(succ, 0, avoid=err | verif | deleg)
+            r_wo, _ = b.explore(avoid=err | verif | deleg, **kw)
             bad = [x for x in rets if x in r_wo]
             if not rets:
                 msg = "under block_check = Crc32 no Ok return is reachable (the arm is unreachable!()): nothing can be handed out unverified"
